@@ -14,7 +14,7 @@ Here is a semantic property the library is supposed to satisfy:
 
 Task: produce ONE realistic code change (a plausible bug a maintainer could introduce: a refactoring slip, an optimisation, a reordered statement, a wrong boundary, a forgotten case...) to the library source in your worktree that BREAKS this property, while (a) the code still imports/compiles and (b) the existing test suite still passes:
    cd /tmp/wt_{pid}{suf} && PYTHONPATH=/tmp/wt_{pid}{suf} /venv/bin/python -m pytest -q -p no:cacheprovider --timeout=900 2>&1 | tail -3
-(the suite takes ~2-3 minutes; it must still report 428 passed).
+(the suite takes ~2-3 minutes on an idle machine, 10-20 when other testers run theirs; it must still report 428 passed). Other testers run the same command in their own worktrees at the same time: NEVER use pkill / killall on pytest or python -- if you must stop your own run, kill it by PID.
 The change must need something SPECIFIC to manifest -- an unusual input, a particular multi-step sequence of operations, a corner case, or two cooperating sites that each look fine alone -- not something ordinary use would expose at once. Keep it small (a few lines). Do not touch tests.
 
 Also write a demonstration program /tmp/wt_{pid}{suf}/demo_{pid}.py: a small standalone script that exercises the public API, exits 0 (prints PASS) on the ORIGINAL code and exits 1 (prints FAIL and what went wrong) with your change applied. Verify both: run it with your change (must fail), then save your change with `git diff > /tmp/wt_{pid}{suf}/my_change.patch`, undo it with `git checkout -- unified_planning` (do NOT use `git stash`: the stash is shared between worktrees), run the demo again (must pass), then re-apply with `git apply /tmp/wt_{pid}{suf}/my_change.patch`.
